@@ -18,6 +18,72 @@ def decl_type(d: Decl) -> Dict:
     return {"kind": "literal", "value": {"properties": d.props}}
 
 
+DEEP = 600  # parse-only checks: far below what json.loads accepts, above what a recursive copy of the input survives
+DEEP_ROUND_TRIP = 150  # round-trip checks: cattrs itself unstructures an LSPAny payload recursively and runs out of stack near 330 levels under
+# the default recursion limit (an environment bound of every recursive Python serialiser, not counted against the library)
+
+
+def deep_payload(depth: int = DEEP_ROUND_TRIP) -> Any:
+    v: Any = "leaf"
+    for i in range(depth):
+        v = [v] if i % 2 else {"d": v}
+    return v
+
+
+def shared_payload() -> Any:
+    """A valid, finite JSON value in which the same container OBJECT occurs at several positions (what a program that builds its payload
+    from a shared configuration dict holds in memory; json.loads never produces it)."""
+    shared = {"k": [1, {"z": None}], "e": []}
+    row = [0, "r"]
+    return {"before": shared, "after": shared, "rows": [row, row], "empty": shared["e"], "alsoEmpty": shared["e"]}
+
+
+def _is_any(mm: MetaModel, t: Dict) -> Optional[str]:
+    if t["kind"] == "reference" and t["name"] in ("LSPAny", "LSPObject", "LSPArray"):
+        return t["name"]
+    if t["kind"] == "or":
+        for i in t["items"]:
+            r = _is_any(mm, i)
+            if r:
+                return r
+    return None
+
+
+def odd_payload_variants(mm: MetaModel, d: Decl, base: Dict) -> List[Any]:
+    """Valid values with unusual shapes: a deeply nested and an internally shared payload at every LSPAny / LSPObject / LSPArray property,
+    an array of them at LSPAny[] properties, and a long chain at a property through which the structure refers to itself."""
+    out: List[Any] = []
+    if not isinstance(base, dict):
+        return out
+    for p in d.props:
+        t = p["type"]
+        kind = _is_any(mm, t)
+        if kind:
+            for payload in (deep_payload(), shared_payload()):
+                if kind == "LSPArray":
+                    payload = [payload, payload]
+                elif kind == "LSPObject" and not isinstance(payload, dict):
+                    payload = {"p": payload}
+                v = dict(base)
+                v[p["name"]] = payload
+                out.append(v)
+        elif t["kind"] == "array" and _is_any(mm, t["element"]) == "LSPAny":
+            sp = shared_payload()
+            v = dict(base)
+            v[p["name"]] = [sp, sp, deep_payload()]
+            out.append(v)
+        elif t["kind"] == "reference" and d.kind == "structure" and t["name"] == d.pyname and p.get("optional"):
+            # self-reference (SelectionRange.parent): a chain of 300 nodes
+            node = {k: v for k, v in base.items() if k != p["name"]}
+            chain = dict(node)
+            for _ in range(299):
+                nxt = dict(node)
+                nxt[p["name"]] = chain
+                chain = nxt
+            out.append(chain)
+    return out
+
+
 RANDOM_PER_CLASS = 300
 RANDOM_PER_CLASS_QUICK = 12
 
@@ -40,6 +106,7 @@ def root_inputs(mm: MetaModel, d: Decl, cap: int = 60) -> List[Any]:
                     except Exception:
                         continue
                     out.append(v)
+    out.extend(odd_payload_variants(mm, d, base))
     seen = set()
     uniq = []
     import json
@@ -130,6 +197,10 @@ def _inject_props(mm: MetaModel, props: List[Dict], j: Any, depth: int) -> Any:
     bytype = {p["name"]: p["type"] for p in props}
     for kk, vv in j.items():
         out[kk] = inject_extras(mm, bytype[kk], vv, depth + 1) if kk in bytype else vv
+    if EXTRAS_STYLE == "deep":
+        if depth == 0:
+            out[EXTRA_KEY] = deep_payload(DEEP)
+        return out
     if EXTRAS_STYLE == "twins":
         declared = set(bytype)
         junk = {"verif": ["junk", 1, None]}
@@ -267,3 +338,24 @@ def union_nested_sites(mm: MetaModel, t: Dict, depth: int = 0):
             yield x, mm.literal_props(x), place
 
     yield from walk(t, lambda v: v, depth)
+
+
+def deep_parse_inputs(mm: MetaModel, d: Decl) -> List[Any]:
+    """Valid values of d whose LSPAny-typed properties carry a payload nested DEEP levels (for checks that only structure)."""
+    t = decl_type(d)
+    base = mm.witness(t, True)
+    out: List[Any] = []
+    if not isinstance(base, dict):
+        return out
+    for p in d.props:
+        kind = _is_any(mm, p["type"])
+        if kind:
+            payload = deep_payload(DEEP)
+            if kind == "LSPArray":
+                payload = [payload]
+            elif kind == "LSPObject" and not isinstance(payload, dict):
+                payload = {"p": payload}
+            v = dict(base)
+            v[p["name"]] = payload
+            out.append(v)
+    return out
